@@ -159,9 +159,16 @@ def run_verus_file(uid, gen_text, obls, workdir, timeout=600, rlimit=100):
             break
         name, ty = m.group(1), m.group(2)
         added.append((name, ty))
-        stub = (f"\n// R15b: `{ty}::{name}` is not in this unit's vocabulary: an uninterpreted predicate (nothing assumed about it)\n"
-                f"pub uninterp spec fn verif_unknown_{ty}_{name}(p: {ty}) -> bool;\n"
-                f"impl {ty} {{ #[verifier::external_body] pub fn {name}(&self) -> (r: bool) ensures r == verif_unknown_{ty}_{name}(*self) {{ unimplemented!() }} }}\n")
+        fallible = re.search(r"\.\s*" + name + r"\s*\(\s*\)\s*\?", gen_text) is not None
+        if fallible:
+            # `x.name()?`: a new check that may fail -- an uninterpreted outcome (nothing assumed about when it fails)
+            stub = (f"\n// R15b: `{ty}::{name}` is not in this unit's vocabulary: an uninterpreted fallible check (nothing assumed about it)\n"
+                    f"pub uninterp spec fn verif_unknown_{ty}_{name}(p: {ty}) -> bool;\n"
+                    f"impl {ty} {{ #[verifier::external_body] pub fn {name}(&self) -> (r: Result<(), VErr>) ensures r is Ok <==> verif_unknown_{ty}_{name}(*self) {{ unimplemented!() }} }}\n")
+        else:
+            stub = (f"\n// R15b: `{ty}::{name}` is not in this unit's vocabulary: an uninterpreted predicate (nothing assumed about it)\n"
+                    f"pub uninterp spec fn verif_unknown_{ty}_{name}(p: {ty}) -> bool;\n"
+                    f"impl {ty} {{ #[verifier::external_body] pub fn {name}(&self) -> (r: bool) ensures r == verif_unknown_{ty}_{name}(*self) {{ unimplemented!() }} }}\n")
         idx = gen_text.rfind("} // verus!")
         gen_text = gen_text[:idx] + stub + gen_text[idx:]
         for o in obls:
